@@ -24,6 +24,7 @@ func ruleC17(prog *Program, rep *Report) {
 	}
 	ruleFindFirst(prog, rep, "jp")
 	ruleQuotedIsString(prog, rep, jsonFrontEnds[2], senFrontEnds[1])
+	ruleBufView(prog, rep, 20, "oj", "sen")
 	ruleAddrRetain(prog, rep, 1, "jp") // the handler keeps one entry per target
 	ruleBufAlias(prog, rep, jsonFrontEnds[2], senFrontEnds[1]) // a string delivered to the callback must survive the next read
 	// T-leaf
